@@ -181,6 +181,7 @@ def run(ctx):
     match_correspondence(ctx, [p for p, u in pats if u is None])
     cap_family(ctx)
     negated_class_through_fake(ctx)
+    many_patterns_one_process(ctx)
     reuse_family(ctx, [p for p, u in pats if u is None and anchors_only_at_ends(p)])
     schema_path(ctx, [p for p, u in pats if u is None and anchors_only_at_ends(p)])
     for p, u in pats[:6]:
@@ -270,18 +271,77 @@ def reuse_family(ctx, patterns):
         _random.setstate(st)
 
 
+def many_patterns_one_process(ctx):
+    """anything the generator keeps between patterns (parse caches, per-node caches keyed by identity, alphabets built once):
+    more than 200 DISTINCT patterns — most of them with negated classes whose excluded sets differ — through ONE generator
+    object and through the module-level one, each generated under several candidate indexes; every string returned matches
+    its own pattern. Also literal patterns produced by re.escape (punctuation, blanks, line breaks escaped with a backslash)."""
+    import random as _random
+    import re as _re
+    from d42 import fake, schema
+    from d42.generation import Random, RegexGenerator
+    pats = []
+    for i in range(120):
+        a, b, c = chr(97 + i % 26), chr(65 + (i * 7) % 26), str(i % 10)
+        pats += ["[^%s%s%s]{2}" % (a, b, c), "x[^\\d%s]y" % a if i % 3 == 0 else "[^%s-%s_]" % (a, chr(min(122, ord(a) + 3))), "%s[%s%s]%d" % (a, b, c, i)]
+    for lit in ("a\nb", "line1\nline2", " \t ", "a.b*c", "(x)[y]{z}", "1+1=2?", "tab\there", "q\r\nw", "^$|\\", "é☃", "#comment ~ `tick`", "a-b_c", "\x0b\x0c"):
+        pats.append(_re.escape(lit))
+    st = _random.getstate()
+    try:
+        _random.seed(4242)
+        shared = RegexGenerator(Random())
+        for via, gen in (("one RegexGenerator instance", shared.generate), ("fake(schema.str.regex(p))", lambda p: fake(schema.str.regex(p)))):
+            for rnd_round in range(2):
+                for p in pats:
+                    ctx.count("many_patterns_calls")
+                    try:
+                        out = gen(p)
+                    except Exception:  # noqa: BLE001  (a loud refusal is allowed)
+                        continue
+                    try:
+                        ok = fullmatch(p, out)
+                    except _Timeout:
+                        continue
+                    if not ok:
+                        ctx.violation("generated string does not match the entire pattern (many distinct patterns through one "
+                                      "generator)", pattern=p, generated=out[:100], via=via, negated_class="[^" in p and "\\" not in p and False)
+                        return
+        # the same under scripted draws: every 5th candidate index, through the module-level generator
+        for p in pats[::3]:
+            try:
+                s = schema.str.regex(p)
+            except Exception:  # noqa: BLE001
+                continue
+            for k in (0, 1, 5, 17, 40, 63, 90):
+                (kind, v), log = SR.generate_public(s, SR.make_policy("idx:%d" % k, ctx.rnd))
+                if kind == "ok":
+                    try:
+                        if not fullmatch(p, v):
+                            ctx.violation("generated string does not match the entire pattern", pattern=p, generated=v[:100],
+                                          policy="idx:%d" % k, via="fake(schema.str.regex(p))")
+                            return
+                    except _Timeout:
+                        pass
+    finally:
+        _random.setstate(st)
+
+
 def negated_class_through_fake(ctx):
     """negated classes built from categories / ranges / literals through the PUBLIC path fake(schema.str.regex(p)) — the
     module-level generator as the package wires it — with EVERY candidate character chosen once (policy idx:k)"""
     from d42 import schema
     pats = [r"[^\w]", r"[^\w\d]", r"[^\w.]", r"[^\d]", r"[^a-zA-Z0-9]", r"[^\w ]{2}", r"x[^\w-]y", r"[^_\W]" if False else r"[^\d_]", r"[^ -/]"]
+    # several DIFFERENT negated classes in one pattern (each has its own complement), next to each other, repeated, in branches
+    pats += [r"[^a][^b]", r"[^a][^b][^c]", r"[^x]{2}[^y]{2}", r"[^0-9][^a-z]", r"([^a]|[^b])[^c]", r"[^ab][^bc][^ca]", r"[^a]*[^b]+[^c]?",
+             r"[^\d][^\w]", r"(?:[^a][^b]){2}"]
     for p in pats:
         try:
             s = schema.str.regex(p)
         except Exception:  # noqa: BLE001
             continue
         for k in range(0, 100):
-            (kind, v), log = SR.generate_public(s, SR.make_policy("idx:%d" % k, ctx.rnd))
+          for via, genf in (("fake(schema.str.regex(p))", SR.generate_public), ("Generator(random, RegexGenerator(random))", SR.generate)):
+            (kind, v), log = genf(s, SR.make_policy("idx:%d" % k, ctx.rnd))
             ctx.count("negated_class_fake_cases")
             if kind != "ok":
                 continue
